@@ -65,7 +65,7 @@ type cliCfg struct {
 	noOutput bool
 }
 
-var cliProgs = []string{"find all 'a' (maybe 'b') = x", "find all 'zzz'", "replace all 'a' with 'XY'", "find all ("}
+var cliProgs = []string{"find all 'a' (maybe not ' ') = x", "find all 'zzz'", "replace all 'a' with 'XY'", "find all ("}
 var cliGlobs = []string{"a.txt", "*.txt", "zzz*"}
 var cliModes = []string{"", "NEW", "NOTHING", "OVERWRITE", "BOGUS"}
 
@@ -99,7 +99,7 @@ func (k cliCfg) args() []string {
 }
 
 func cliSetup(dir string) {
-	os.WriteFile(filepath.Join(dir, "a.txt"), []byte("ab a\nxa\"b\n"), 0o644)
+	os.WriteFile(filepath.Join(dir, "a.txt"), []byte("ab a%d\nxa\"b a\\ 100% a%s\n"), 0o644)
 	os.WriteFile(filepath.Join(dir, "b.txt"), []byte("bab"), 0o644)
 	os.WriteFile(filepath.Join(dir, "c.md"), []byte("aaa"), 0o644)
 	os.WriteFile(filepath.Join(dir, "a.txt.vored"), []byte("STALE STALE STALE STALE"), 0o644)
